@@ -128,7 +128,7 @@ func (e *Enc) loopMod(li *loopInfo) map[string]bool {
 			case *ssa.Slice, *ssa.Convert:
 				m["$A"] = true
 			case *ssa.MapUpdate:
-				m["map"] = true
+				m["$s:map"] = true
 			case ssa.CallInstruction:
 				m["$A"] = true
 				for k := range e.callWrites(x.Common()) {
@@ -156,7 +156,7 @@ func (e *Enc) callWrites(c *ssa.CallCommon) map[string]bool {
 				}
 			}
 		case "delete":
-			m["map"] = true
+			m["$s:map"] = true
 		}
 		return m
 	case *ssa.Function:
@@ -233,6 +233,21 @@ func (e *Enc) Encode() {
 		}
 		e.assert(t)
 		e.axiomsUsed = append(e.axiomsUsed, ax.Name)
+	}
+	// lock-set discipline: the calling thread holds no lock of the library when it enters a function, unless the function's
+	// contract says otherwise by mentioning (held ...)
+	{
+		mentionsHeld := false
+		if e.ct != nil {
+			for _, r := range e.ct.Requires {
+				if strings.Contains(r.String(), "(held ") {
+					mentionsHeld = true
+				}
+			}
+		}
+		if !mentionsHeld {
+			e.assert(app("=", e.heapGet(e.entryHeap, "$lock", "Int"), "((as const (Array Ref Int)) 0)"))
+		}
 	}
 	// implicit preconditions
 	{
@@ -471,7 +486,7 @@ func (e *Enc) loopHead(b *ssa.BasicBlock, li *loopInfo) {
 			keys = nil
 		}
 		for _, k := range keys {
-			if plain[k] || plain["*"] || ghostPlain(k) || k == "map" {
+			if plain[k] || plain["*"] || ghostPlain(k) {
 				e.havocKey(e.cur, k)
 				continue
 			}
@@ -895,17 +910,26 @@ func (e *Enc) instr(ins ssa.Instruction) {
 			e.assert(inRange(r.T, x.Type()))
 			return
 		}
-		e.val(x.X)
+		mv := e.val(x.X)
+		kv := e.val(x.Index)
+		valT := x.Type()
 		if x.CommaOk {
-			tt := x.Type().(*types.Tuple)
-			v := Val{e.fresh("mapv", e.sortOf(tt.At(0).Type())), e.sortOf(tt.At(0).Type())}
+			valT = x.Type().(*types.Tuple).At(0).Type()
+		}
+		// map contents are a function of (map, key, version); the version changes with every map update anywhere
+		get := e.mapGet(h, mv, kv, e.sortOf(valT))
+		if x.CommaOk {
+			v := Val{e.fresh("mapv", e.sortOf(valT)), e.sortOf(valT)}
 			ok := Val{e.fresh("mapok", "Bool"), "Bool"}
-			e.assert(e.typeFacts(v.T, tt.At(0).Type()))
+			e.assert(app("=", v.T, get))
+			e.assert(app("=", ok.T, e.mapHas(h, mv, kv)))
+			e.assert(e.typeFacts(v.T, valT))
 			e.assert(e.refOld(v, h))
-			e.assert(implies(not(ok.T), app("=", v.T, e.zero(tt.At(0).Type()))))
+			e.assert(implies(not(ok.T), app("=", v.T, e.zero(valT))))
 			e.tuples[x] = []Val{v, ok}
 		} else {
-			v := e.havocVal(x)
+			v := e.define(x, get)
+			e.assert(e.typeFacts(v.T, valT))
 			e.assert(e.refOld(v, h))
 		}
 	case *ssa.UnOp:
@@ -1034,9 +1058,12 @@ func (e *Enc) instr(ins ssa.Instruction) {
 		e.store(h, addr.T, x.Addr, t, e.val(x.Val).T)
 	case *ssa.MapUpdate:
 		m := e.val(x.Map)
-		e.val(x.Key)
-		e.val(x.Value)
+		kv := e.val(x.Key)
+		vv := e.val(x.Value)
 		e.oblige("mapnil", descOf(e.exprText(x.Map, x)), "", x.Pos(), e.guardGoal(app("distinct", m.T, "nil")))
+		e.heapSort["$s:map"] = "Int"
+		h.m["$s:map"] = e.fresh("mapver", "Int")
+		e.assert(implies(e.reach[e.curBlock], and(app("=", e.mapGet(h, m, kv, vv.S), vv.T), e.mapHas(h, m, kv))))
 	case *ssa.Panic:
 		e.val(x.X)
 		e.oblige("panic", "", "", x.Pos(), not(e.reach[e.curBlock]))
@@ -1342,6 +1369,15 @@ func (e *Enc) binop(x *ssa.BinOp) {
 		op := map[token.Token]string{token.ADD: "+", token.SUB: "-", token.MUL: "*"}[x.Op]
 		m := app(op, a.T, b.T)
 		e.ovfCheck(x, m, t, x.Pos())
+		if e.checkOvf {
+			// `int-overflow check`: the no-overflow obligation just posed must be discharged for the function to be
+			// claimed; downstream the mathematical value is used (listed as such in the evidence)
+			if _, _, isInt := intRange(t); isInt {
+				e.assert(implies(e.reach[e.curBlock], inRange(m, t)))
+				e.define(x, m)
+				return
+			}
+		}
 		e.define(x, wrapTo(m, t))
 	case token.QUO, token.REM:
 		e.oblige("div0", descOf(e.exprText(x, x)), "", x.Pos(), e.guardGoal(app("distinct", b.T, "0")))
@@ -1565,9 +1601,47 @@ func (e *Enc) ret(x *ssa.Return) {
 		return
 	}
 	env := e.exitEnv(x)
+	// lemmas: intermediate facts over the function's locals, proved at each return where the names are defined and then
+	// available to the postconditions (proof hints; they are obligations of class `lemma`, never assumptions)
+	if len(e.ct.Lemmas) > 0 {
+		lenv := *env
+		lenv.names = map[string]binding{}
+		for k, v := range env.names {
+			lenv.names[k] = v
+		}
+		for b := e.curBlock; b != nil; b = b.Idom() {
+			for n, v := range e.nameAt[b] {
+				if _, dup := lenv.names[n]; dup {
+					continue
+				}
+				if val, known := e.vals[v]; known {
+					lenv.names[n] = binding{val, v.Type()}
+				}
+			}
+		}
+		for _, lm := range e.ct.Lemmas {
+			n := len(e.unsupported)
+			na := len(e.asserts)
+			t := e.evalBool(lm.Expr, &lenv)
+			if len(e.unsupported) > n {
+				// a local the lemma mentions is not defined on the paths to this return
+				e.unsupported = e.unsupported[:n]
+				e.asserts = e.asserts[:na]
+				continue
+			}
+			g := e.guardGoal(t)
+			e.oblige("lemma", lm.Tag, "", x.Pos(), g)
+			e.assert(g)
+		}
+	}
+	var retTerms []string
+	for _, rv := range x.Results {
+		retTerms = append(retTerms, e.val(rv).T)
+	}
 	for _, en := range e.ct.Ensures {
 		if t, ok := e.evalClause(e.ct, en.Expr, env); ok {
 			e.oblige("post", en.Tag, en.Tag, x.Pos(), e.guardGoal(t))
+			e.obls[len(e.obls)-1].RetTerms = retTerms
 		}
 	}
 	for _, fr := range e.ct.Fresh {
@@ -1624,4 +1698,24 @@ func dedup(xs []string) []string {
 		}
 	}
 	return out
+}
+
+func (e *Enc) mapGet(h *Heap, m, k Val, valSort string) string {
+	fn := "mapget_" + sanitize(k.S) + "_" + sanitize(valSort)
+	if !e.declared[fn] {
+		e.declared[fn] = true
+		e.decls = append(e.decls, fmt.Sprintf("(declare-fun %s (Ref %s Int) %s)", fn, k.S, valSort))
+	}
+	e.heapSort["$s:map"] = "Int"
+	return app(fn, m.T, k.T, e.heapGet(h, "$s:map", "Int"))
+}
+
+func (e *Enc) mapHas(h *Heap, m, k Val) string {
+	fn := "maphas_" + sanitize(k.S)
+	if !e.declared[fn] {
+		e.declared[fn] = true
+		e.decls = append(e.decls, fmt.Sprintf("(declare-fun %s (Ref %s Int) Bool)", fn, k.S))
+	}
+	e.heapSort["$s:map"] = "Int"
+	return app(fn, m.T, k.T, e.heapGet(h, "$s:map", "Int"))
 }
